@@ -525,7 +525,7 @@ PROFILE = {
     "p_fail": 0.10, "fwd": 0.25, "gap_in_o": True, "close": 0.6,
     "ops": {"add": 52, "rm": 10, "rmline": 5, "disconnect": 6, "rename": 10, "settag": 8, "deltag": 4},
     "fails": {"dup-same": 3, "dup-other": 3, "dup-link": 1, "version": 2, "malformed": 2, "header": 2, "grouptag": 2,
-              "rename-existing": 3, "rm-missing": 1, "illegal-edit": 0, "empty-line": 0},
+              "rename-existing": 3, "rm-missing": 1, "illegal-edit": 0, "empty-line": 0, "mention-nonsegment": 1.5},
     "rename_star": 0.0,
 }
 
@@ -828,6 +828,24 @@ def gen_fail(rng, m, prof):
             return ["rename", a, b], "fail:rename-existing:%s/%s" % (ra, rb)
         if k == "rm-missing":
             return ["rm", rng.choice(MISSING)], "fail:rm-missing"
+        if k == "mention-nonsegment":
+            # a line that uses, where a segment is expected, the identifier of a line that is not a segment
+            other = [n for n in sorted(ids) if m.recs[ids[n]][0] != "S"]
+            if not other:
+                continue
+            n = rng.choice(other)
+            a = _pick_seg(rng, m, prof)
+            first = rng.chance(0.5)
+            x, y = (n, a) if first else (a, n)
+            if v == "gfa1":
+                c = ["L\t%s\t+\t%s\t-\t*" % (x, y), "C\t%s\t+\t%s\t+\t0\t*" % (x, y)]
+                free = _unused(rng, m, PATH_IDS)
+                if free:
+                    c.append("P\t%s\t%s+,%s-\t*" % (free, x, y))
+            else:
+                c = ["E\t*\t%s+\t%s-\t0\t5\t5\t10$\t*" % (x, y), "G\t*\t%s+\t%s+\t5\t*" % (x, y),
+                     "F\t%s\tr1+\t0\t5\t0\t5\t*" % n]
+            return ["add", rng.choice(c)], "fail:mention-nonsegment"
         if k == "illegal-edit":
             c = []
             for rt, fields in (("L", [("from_segment", "D"), ("to_orient", "-"), ("overlap", "7M")]),
